@@ -11,14 +11,21 @@ from . import common
 from .common import Check
 from . import c06_lib as lib
 from . import c06_gen as gen
-from .c06 import compare_with_model, run_sqlite_histories
+from . import c18_gen as gen18
+from . import c18_lib as lib18
 
 RULE = ("deterministic corpus (one write of every kind 9.999 s / 9.999999 s / 10 s / 10.000001 s / 10.001 s / 30 s / 1 h "
         "after a flush, then a second one 1 ms later; trickles with periods 4 s .. 11 s; idle hours then bursts; clocks "
-        "that advance 1 µs .. 11 s between the three readings of one conditional_commit; plus the whole C06 corpus) "
-        "then seeded random histories with gaps drawn around the 10 s boundary; the committed state is read through a "
-        "second connection at every statement boundary and after every call; thorough adds one real-time run with "
-        "time.sleep(11).  non-trivial = distinct history in which conditional_commit both buffered and flushed")
+        "that advance 1 µs .. 11 s between the three readings of one conditional_commit; plus the whole C06 corpus; "
+        "round 2: ages with every size of days / hours / seconds / microseconds component (10.5 s .. 23:59:59.999999, "
+        "N days + 0 / 1 µs / 4 s / 9.999999 s / 10 s / 11 s, weeks, years), trickles and clock jumps of more than a day; "
+        "sessions that close the store (with or without a flush) and open a new instance on the existing file, whose first "
+        "call is an event write 3 s .. 1 day after opening, optionally behind a read that does not flush) "
+        "then seeded random histories with gaps drawn around the 10 s boundary, with day/hour/second/µs components, and "
+        "with re-openings; the committed state is read through a "
+        "second connection at every statement boundary and after every call; the opening of a store instance counts as a "
+        "flush at the instant its constructor returned (taken from the fake clock, not from the store); thorough adds one "
+        "real-time run with time.sleep(11).  non-trivial = distinct history in which conditional_commit both buffered and flushed")
 
 
 def real_time_run(ck, sq, Event):
@@ -62,13 +69,18 @@ def main(argv=None):
     quick = ck.tier == "quick"
     # quick: the count-only grid of insert_many sizes is left to C06
     histories = [h for h in gen.corpus() if not quick or not h[0].startswith("insert_many-")]
+    histories += gen18.corpus()
     n_random = 60 if quick else 2000
     for i in range(n_random):
         profile = ["trickle", "mixed", "trickle", "burst"][i % 4]
         histories.append((f"random-{profile}-{i}", ck.rng.random() > 0.05, gen.random_history(ck.rng, profile)))
-    pending, wire = run_sqlite_histories(ck, sq, Event, histories, 1, "")
+    for i in range(40 if quick else 1500):
+        profile = ["reopen", "longidle", "reopen"][i % 3]
+        histories.append((f"random-{profile}-{i}", ck.rng.random() > 0.05, gen18.random_session(ck.rng, profile)))
+    # every history runs as a session of harness/c18_lib.py (one store instance unless it re-opens)
+    pending, wire = lib18.run_sessions(ck, sq, Event, histories)
     if have_driver:
-        compare_with_model(ck, "C18", pending, wire, "")
+        lib18.compare_with_model(ck, "C18", pending, wire)
     if not quick:
         real_time_run(ck, sq, Event)
 
@@ -76,7 +88,10 @@ def main(argv=None):
         "clock: the fake datetime.now() installed in aw_datastore.storages.sqlite never decreases (the theorems' "
         "mono_from hypothesis); it may advance between the readings of one call",
         "flush instants for the oracle are taken from the outside: F = the latest instant at which the second connection "
-        "saw nothing pending (so F is at or after the store's own last_commit)",
+        "saw nothing pending (so F is at or after the store's own last_commit); for a newly opened store instance (new or "
+        "existing file) F starts at the instant the constructor returned",
+        "a store goes away either by closing its connection with the writes still pending (process exit; they are lost, "
+        "the next instance starts from the committed file) or after a commit; there is no close() in the storage class",
         "nothing flushes a buffered write when no further call arrives (there is no timer): the age bound is relative to "
         "the last flush, as the property text says, not to the crash instant",
         "SQLite transaction semantics as for C06 (oracle, sampled through the second connection)",
